@@ -34,12 +34,17 @@ fn ca<'a>(w: &'a World, which: char) -> &'a [u8] {
 
 async fn attempt_lib(w: &World, addr: SocketAddr, trust: char, id: &str, topic: &str) -> Result<bool, String> {
     let ident = match id {
-        "T" => w.t.client.clone(),
-        "O" => w.o.client.clone(),
+        "T" | "T-bundle" => w.t.client.clone(),
+        "O" | "O-bundle" => w.o.client.clone(),
         _ => w.selfsigned.clone(),
     };
     let fut = async {
-        let c = net::client(addr, ca(w, trust), &ident, BackoffStrategy::constant().with_max_attempts(0)).await?;
+        let c = match id {
+            // the certificate file is a PEM bundle: leaf followed by the CA that issued it
+            "T-bundle" => net::client_bundle(addr, ca(w, trust), &ident, &w.t.ca).await?,
+            "O-bundle" => net::client_bundle(addr, ca(w, trust), &ident, &w.o.ca).await?,
+            _ => net::client(addr, ca(w, trust), &ident, BackoffStrategy::constant().with_max_attempts(0)).await?,
+        };
         let s = c.subscriber(topic).with_decoder(StringCodec).open().await?;
         drop(s);
         anyhow::Ok(())
@@ -89,10 +94,13 @@ fn cells() -> Vec<Value> {
         let mut block = Vec::new();
         for (sv, sp) in [('T', 'T'), ('T', 'O'), ('O', 'O'), ('O', 'T')] {
             for trust in ['T', 'O'] {
-                for cid in ["T", "O", "self", "none"] {
+                for cid in ["T", "O", "self", "none", "T-bundle", "O-bundle"] {
                     for via in ["library", "raw"] {
                         if via == "library" && cid == "none" {
                             continue; // the client library cannot be built without a certificate
+                        }
+                        if via == "raw" && cid.ends_with("-bundle") {
+                            continue; // the bundle is a matter of how the library loads its files
                         }
                         block.push((sv, sp, trust, cid, via));
                     }
@@ -107,7 +115,43 @@ fn cells() -> Vec<Value> {
             id += 1;
         }
     }
+    // the generator writing into directories that already hold an earlier set
+    v.push(json!({"cell": id, "pass": "forward", "family": "generator-rerun", "runs": 8}));
     v
+}
+
+/// `gen-certs` run repeatedly into the same directories; after every run the files on disk must
+/// start a server and let a client register.
+async fn generator_rerun(runs: usize) -> Result<String, Fail> {
+    let base = vcommon::report::verif_root().join(".cache").join("tmp").join(format!("certs-{}-gen", std::process::id()));
+    let (cd, sd) = (base.join("client"), base.join("server"));
+    for run in 1..=runs {
+        certs::bundled_write(&cd, &sd).map_err(|e| fail("generator-failed", "generator", format!("run {run}: {e}")))?;
+        let addr = match net::start_server_from_dir(&sd) {
+            Ok(a) => a,
+            Err(e) => return Err(fail("generated-set-unusable", "generator", format!("run {run} of the generator into the same directories: the server does not start from the files it wrote: {e}"))),
+        };
+        let fut = async {
+            let c = selium::custom()
+                .keep_alive(5_000u64)?
+                .backoff_strategy(BackoffStrategy::constant().with_max_attempts(0))
+                .endpoint(&addr.to_string())
+                .with_certificate_authority(certs::p(&cd, "ca.der"))?
+                .with_cert_and_key(certs::p(&cd, "localhost.der"), certs::p(&cd, "localhost.key.der"))?
+                .connect()
+                .await?;
+            let s = c.subscriber("/c15ns/generated").with_decoder(StringCodec).open().await?;
+            drop(s);
+            anyhow::Ok(())
+        };
+        match tokio::time::timeout(Duration::from_secs(15), fut).await {
+            Ok(Ok(())) => {}
+            Ok(Err(e)) => return Err(fail("generated-set-unusable", "generator", format!("run {run} of the generator into the same directories: a client using the files it wrote cannot register: {e:#}"))),
+            Err(_) => return Err(fail("generated-set-unusable", "generator", format!("run {run}: registration with the generated files timed out"))),
+        }
+    }
+    let _ = std::fs::remove_dir_all(&base);
+    Ok("generated-sets-usable".into())
 }
 
 pub async fn run(tier: &str, replaying: bool) -> ! {
@@ -127,6 +171,9 @@ pub async fn run(tier: &str, replaying: bool) -> ! {
     let outs = run_matrix(cs, 1, |c| {
         let w = w.clone();
         async move {
+            if c["family"] == "generator-rerun" {
+                return (true, generator_rerun(c["runs"].as_u64().unwrap() as usize).await);
+            }
             let sv = c["server_verifies_clients_against"].as_str().unwrap().chars().next().unwrap();
             let sp = c["server_presents"].as_str().unwrap().chars().next().unwrap();
             let trust = c["client_trusts"].as_str().unwrap().chars().next().unwrap();
@@ -135,7 +182,7 @@ pub async fn run(tier: &str, replaying: bool) -> ! {
             let addr = w.servers.iter().find(|s| s.0 == sv && s.1 == sp).unwrap().2;
             let topic = format!("/c15ns/cell{}", c["cell"]);
             // registration may succeed iff each side presents a certificate chaining to the CA the other side was configured with
-            let should = trust == sp && cid.len() == 1 && cid.chars().next() == Some(sv);
+            let should = trust == sp && (cid == "T" || cid == "O" || cid.ends_with("-bundle")) && cid.chars().next() == Some(sv);
             let got = if via == "library" { attempt_lib(&w, addr, trust, &cid, &topic).await } else { attempt_raw(&w, addr, trust, &cid, &topic).await };
             let class = format!("via={via}");
             let r = match got {
@@ -157,7 +204,7 @@ pub async fn run(tier: &str, replaying: bool) -> ! {
     finish(
         rep,
         outs,
-        "every cell of: server configuration (CA used to verify clients, CA of the certificate it presents) in {T,O}x{T,O} x client trust store {T,O} x client identity {T-certified, O-certified, self-signed, none} x peer {real client library, raw QUIC peer} (no-certificate only via the raw peer), run in a forward and a backward order within one process; T is the certificate set produced by the repository's bundled generator (fresh keys every run), O an independent CA. Oracle: a registration is answered Ok iff the server's certificate chains to the client's CA and the client's certificate chains to the server's CA. non-trivial = every cell except the plainly trusted pairs",
+        "every cell of: server configuration (CA used to verify clients, CA of the certificate it presents) in {T,O}x{T,O} x client trust store {T,O} x client identity {T-certified, O-certified, self-signed, none, and T-/O-certified given as a PEM bundle 'leaf + issuing CA'} x peer {real client library, raw QUIC peer} (no-certificate only via the raw peer, bundles only via the library), run in a forward and a backward order within one process; T is the certificate set produced by the repository's bundled generator (fresh keys every run), O an independent CA. Oracle: a registration is answered Ok iff the server's certificate chains to the client's CA and the client's certificate chains to the server's CA. non-trivial = every cell except the plainly trusted pairs. Plus: the bundled generator is run 8 times into the same directories, and after every run its files must start a server and let a client register",
         "finite configuration space enumerated completely, sequentially, in two orders",
         json!({}),
         replaying,
